@@ -109,6 +109,14 @@ def run(prop, tier, seed, work):
             pairs = [p for p in pairs if not p[2].startswith(("added-required", "all-required"))]
         per = (3 if quick else 10)
         batches.append(run_pairs(prop, tier, seed, work, res, defs, pairs, per, two_hop=(prop == "C11")))
+        if not quick:
+            # further rounds: other retype choices, other value samples, other order / trail / destination assignments
+            for r in range(1, 4):
+                rng2 = random.Random(seed * 7907 + 3 + 1000 * r)
+                defs2, pairs2 = evolve.build_pairs(rng2, False)
+                if prop == "C11":
+                    pairs2 = [p for p in pairs2 if not p[2].startswith(("added-required", "all-required"))]
+                batches.append(run_pairs(prop, tier, seed + 100 * r, work, res, defs2, pairs2, 12, two_hop=(prop == "C11"), name="pairs%d" % r))
     if prop == "C09":
         batches.extend(required_batches(prop, tier, seed, work, res, quick))
     if prop == "C10":
@@ -119,9 +127,10 @@ def run(prop, tier, seed, work):
 
 # ---- C09 -------------------------------------------------------------------------------------
 def required_batches(prop, tier, seed, work, res, quick):
-    defs, pairs = evolve.required_universe()
+    ids = evolve.BOUNDARY_IDS if quick else evolve.MORE_IDS
+    defs, pairs = evolve.required_universe(ids)
+    defs.pop("_ids", None)
     defs_path = vlib.write_defs(work, defs)
-    ids = evolve.BOUNDARY_IDS
     cases, plans = [], {}
     n = 0
 
